@@ -385,9 +385,9 @@ func (h *RequestHeader) RawHeaders() []byte {
 // AppendBytes appends request header representation to dst and returns
 // the extended dst.
 func (h *RequestHeader) AppendBytes(dst []byte) []byte {
-	dst = append(dst, h.Method()...)
+	dst = appendRequestLinePart(dst, h.Method())
 	dst = append(dst, ' ')
-	dst = append(dst, h.RequestURI()...)
+	dst = appendRequestLinePart(dst, h.RequestURI())
 	dst = append(dst, ' ')
 	dst = append(dst, bytestr.StrHTTP11...)
 	dst = append(dst, bytestr.StrCRLF...)
@@ -1674,6 +1674,27 @@ func appendHeaderLine(dst, key, value []byte) []byte {
 	dst = append(dst, bytestr.StrColonSpace...)
 	dst = append(dst, newlineToSpace(value)...)
 	return append(dst, bytestr.StrCRLF...)
+}
+
+// appendRequestLinePart appends the method or the request target of the request line.
+// SP, CR and LF cannot be part of either (RFC 9112, section 3): a raw SP would end the part and a raw
+// CR or LF would end the line and start a header line of the caller's choice, so the three bytes are
+// written percent-encoded. Every other byte is written as it is.
+func appendRequestLinePart(dst, part []byte) []byte {
+	i := 0
+	for i < len(part) && part[i] != ' ' && part[i] != '\r' && part[i] != '\n' {
+		i++
+	}
+	dst = append(dst, part[:i]...)
+	const upperhex = "0123456789ABCDEF"
+	for _, c := range part[i:] {
+		if c == ' ' || c == '\r' || c == '\n' {
+			dst = append(dst, '%', upperhex[c>>4], upperhex[c&15])
+		} else {
+			dst = append(dst, c)
+		}
+	}
+	return dst
 }
 
 // newlineToSpace will return a copy of the original byte slice.
